@@ -191,7 +191,7 @@ PROPS['C15'].update({
     'coq_targets': ['Properties/C15.vo', 'Impl/ImplBoard.vo', 'Impl/ImplMisc.vo'],
     'obligation_files': ['Properties/C15.v', 'Lemmas/DriverLemmas5.v', 'Lemmas/IterateLemmas.v', 'Lemmas/SearchctlLemmas.v', 'Impl/ImplMisc.v', 'Impl/ImplBoard.v'],
     'level': 'proof',
-    'level_text': 'Proof: the iteration loop on the real board model reports depths 1,2,3,... in order, each entry being exactly the direct full-window search at that depth on the threaded board/table, and ends exactly at the depth limit or the first depth with a forced mate within the depth; the hard time limit never exceeds the remaining clock (int64 Duration arithmetic with truncating division) for clocks >= 0 and moves-to-go < 2^31. The halting protocol is proved on the driver transition system under every interleaving: Halt returns only after depth 1 has completed (halt_after_depth1), what it returns is a completed iteration (halt_returns_completed) and at least as deep as everything reported before the halt (halt_at_least_reported); it is also checked on the implementation by halting real analyses at random instants. ',
+    'level_text': 'Proof: the iteration loop on the real board model reports depths 1,2,3,... in order, each entry being exactly the direct full-window search at that depth on the threaded board/table, and ends exactly at the depth limit or the first depth with a forced mate within the depth; the hard time limit never exceeds the remaining clock (int64 Duration arithmetic with truncating division) for clocks >= 0 and EVERY moves-to-go value, and the divisor is never zero (limits_divisor_pos; the bound moves-to-go < 2^31 that the theorem used to carry pointed at a genuine crash, repaired by fix 150a1d2). The halting protocol is proved on the driver transition system under every interleaving: Halt returns only after depth 1 has completed (halt_after_depth1), what it returns is a completed iteration (halt_returns_completed) and at least as deep as everything reported before the halt (halt_at_least_reported); it is also checked on the implementation by halting real analyses at random instants. ',
     'level_note': 'A consumer that falls behind misses intermediate depths (one-slot channel, latest wins): the property is read as "what is reported is in increasing order, each equal to the direct search, and the final iteration is always delivered". Wall-clock behaviour of time.AfterFunc and the soft limit is not modelled. Trusted: Coq kernel, harness.',
 })
 PROPS['C04'] = _board('C04', ['C04'],
@@ -235,10 +235,10 @@ PROPS['C20'] = _board('C20', ['C20'],
 
 PROPS['C20'].update({
     'coq_targets': ['Properties/C20.vo', 'Impl/ImplBoard.vo'],
-    'obligation_files': ['Properties/C20.v', 'Lemmas/EnginesLemmas.v', 'Lemmas/EnginesLemmas2.v', 'Lemmas/EnginesLemmas3.v', 'Lemmas/EnginesLemmas4.v', 'Impl/ImplBoard.v'],
+    'obligation_files': ['Properties/C20.v', 'Lemmas/EnginesLemmas.v', 'Lemmas/EnginesLemmas2.v', 'Lemmas/EnginesLemmas3.v', 'Lemmas/EnginesLemmas4.v', 'Lemmas/MirrorMobility.v', 'Impl/ImplBoard.v'],
     'level': 'proof',
-    'level_text': 'Proof on the model of the three engines (Model/Engines.v, compared with the Go functions on every run: evaluation terms, the ordered plausible-move list and the considerable-move predicate equal on every generated position) for every legal position: generic material within +-567, TUROCHAMP material ratio defined with divisor in [1, 1280], BERNSTEIN evaluation >= 1 with bounded terms, so every division has an integer divisor >= 1 and bounded integer operands (finiteness); generic material, TUROCHAMP material and BERNSTEIN material / control / king-defence terms are invariant under the colour mirror (attack queries commute with the mirror at bit level); no-under-promotion, plausible-move (any static-exchange predicate, any limit) and considerable-move filters select only legal moves, each once, within the limit, the two main-search filters at least one when a legal move exists, the considerable predicate is total on legal moves (en passant never reads a NoPiece value); every reply stored by engine.NewBook is legal in a position with its key, the BERNSTEIN book is {start: e2e4}, all 21 SARGON book entries are legal replies in legal positions. Implementation monitors on curated, cramped, queen-star, pin-line and random positions, each also colour-mirrored.',
-    'level_note': 'Partial in two respects: (1) the float32 steps after the integer skeleton (conversion, division, Round, Sqrt of a count) are not modelled - finiteness is proved for the integer operands and divisors only, and the SARGON Points evaluation is covered by monitors only; (2) colour-blindness of the BERNSTEIN mobility term (number of legal moves commutes with the mirror for BOTH colours) is stated (mirror_mobility_statement) and checked by computation on 13 positions but not proved - the full BERNSTEIN evaluation is colour-blind under that statement. Trusted: Coq kernel, extraction, harness.',
+    'level_text': 'Proof on the model of the three engines (Model/Engines.v, compared with the Go functions on every run: evaluation terms, the ordered plausible-move list and the considerable-move predicate equal on every generated position) for every legal position: generic material within +-567, TUROCHAMP material ratio defined with divisor in [1, 1280], BERNSTEIN evaluation >= 1 with bounded terms, so every division has an integer divisor >= 1 and bounded integer operands (finiteness); generic material, the TUROCHAMP material ratio and the whole BERNSTEIN evaluation (material, control, king defence and mobility: the legal moves of either colour commute with the mirror up to a permutation) are invariant under the colour mirror in every legal position (bernstein_colourblind_full); no-under-promotion, plausible-move (any static-exchange predicate, any limit) and considerable-move filters select only legal moves, each once, within the limit, the two main-search filters at least one when a legal move exists, the considerable predicate is total on legal moves (en passant never reads a NoPiece value); every reply stored by engine.NewBook is legal in a position with its key, the BERNSTEIN book is {start: e2e4}, all 21 SARGON book entries are legal replies in legal positions. Implementation monitors on curated, cramped, queen-star, pin-line and random positions, each also colour-mirrored.',
+    'level_note': 'Partial in one respect: the float32 steps after the integer skeleton (conversion, division, Round, Sqrt of a count) are not modelled - finiteness is proved for the integer operands and divisors only; the TUROCHAMP position-play term and the SARGON Points evaluation are covered by monitors only (no panic, finite, colour-blind on mirrored games). The mobility statement over the bare representation invariant is refuted (mirror_mobility_statement_false) and replaced by the one for legal positions. Trusted: Coq kernel, extraction, harness.',
 })
 
 for _p in WIDEN_THOROUGH:
